@@ -161,6 +161,24 @@ def do_unary_12d(d, c, sc, st, nz, ex, vals):
         if ok:
             MON.check("ccubes.ccube.__init__/observer-inferred-shape", tuple(r) == (max(vals) + 1,),
                       lambda: "inferred shape %r, expected %r" % (r, (max(vals) + 1,)), ex)
+    # raw entries (a plain dict, as update() documents) that carry an EMPTY row list or None, for an absent and for a
+    # present coordinate: nothing may be stored for them, the index stays well-formed and its content unchanged
+    if d.ndim <= 2 and d.size <= 6:
+        tails = [()] if d.ndim == 1 else [(j,) for j in range(d.shape[1])]
+        absent = max(vals + [c]) + 1
+        present = sorted(k for k in mk(d, c).keys())[:1]
+        for key in [(absent,) + tails[0]] + present:
+            for name in ("union_update", "update"):
+                for val, vname in ((np.array([], dtype=U32), "empty array"), (None, "None")):
+                    if name == "update" and val is None:
+                        continue  # update() documents row lists only
+                    x = mk(d, c)
+                    ok, _ = _try(lambda: getattr(x, name)({key: val}))
+                    w = wf(x) if ok else ["raised"]
+                    MON.check("iindexes.iindex.%s/ensures-wf-and-content-unchanged-after-raw-entries-without-rows" % name,
+                              ok and not w and np.array_equal(view(x), d) and x.common == c,
+                              lambda: "%s({%r: %s}) left %r (defects %r)" % (name, key, vname, dict(x), w), dict(ex, entries={"key": list(key), "rows": vname}))
+        st.call(nz)
     # update: every partial assignment of cells
     if d.size <= 4 and d.ndim <= 2:
         cells = list(np.ndindex(*d.shape))
